@@ -27,7 +27,7 @@ Sets1 == << <<<<1, 2>>, <<3, 1>>>>, <<<<4, 5>>>>, <<<<5, 3, 2>>, <<1, 4, 2>>>> >
 Three(c) == <<c, Ev(1, 0), Ev(1, 0), Ev(1, 1)>>
 Single ==
     {[fsets |-> Sets1, ops |-> Three(Pidon(1, 1, fs, pts, res, st, rev))] :
-        fs \in 1..3, pts \in {<<1, 3, 2>>, <<4>>}, res \in {"u_f", "u_g", "echo", "vec"}, st \in BOOLEAN, rev \in BOOLEAN}
+        fs \in 1..3, pts \in {<<1, 3, 2>>, <<4>>}, res \in {"u_f", "u_g", "echo", "vec", "dut"}, st \in BOOLEAN, rev \in BOOLEAN}
     \cup {[fsets |-> Sets1, ops |-> Three(DonData(1, 1, fids, pts, res, norm, root, full, tgt))] :
         fids \in {<<1, 2>>, <<3>>, <<2, 5, 4, 1>>}, pts \in {<<1, 3>>, <<4, 0, 2, 1>>}, res \in {"none", "ut1"}, norm \in 0..2, root \in 1..2,
         full \in BOOLEAN, tgt \in {1}}
@@ -41,7 +41,7 @@ Cands == << Pidon(1, 1, 1, <<1, 3, 2>>, "u_f", FALSE, FALSE),
             Pidon(3, 1, 2, <<1, 3, 2>>, "u_f", FALSE, FALSE),
             Pidon(4, 2, 1, <<1, 3>>, "vec", FALSE, FALSE),
             DonData(5, 1, <<2, 5>>, <<1, 3>>, "none", 2, 1, FALSE, 1),
-            Pidon(6, 1, 3, <<2, 0>>, "u_g", TRUE, FALSE) >>
+            Pidon(6, 1, 3, <<2, 0>>, "dut", TRUE, FALSE) >>
 Init == built = {} /\ evs = [i \in 1..6 |-> 0] /\ step = 0 /\ hist = <<>>
 Next == /\ Len(hist) < MaxOps
         /\ \/ \E i \in 1..6 : i \notin built /\ Cardinality(built) < 3 /\ built' = built \cup {i} /\ hist' = Append(hist, Cands[i]) /\ UNCHANGED <<evs, step>>
